@@ -701,7 +701,7 @@ hx_request(struct hx_reply_s *rp, uid_t u, const char *req, size_t len)
 }
 
 /* ================= observation ================= */
-#define HX_MAXTASKS	16
+#define HX_MAXTASKS	40
 #define HX_MAXOCC	6
 struct hx_task_s {
 	char uid[64];
